@@ -28,11 +28,10 @@ func (p *protocolV1) Version() uint8 {
 }
 
 func (p *protocolV1) UnpackBytes(ctx *protocol.Context, bs []byte) (packet *protocol.Packet, err error) {
-	ctx.BeginUnpack()
-	header := headerFromContext(ctx)
+	// one-shot decoding never shares the header parked in ctx by a streaming decode
+	header := defaultHeaderPool.Get()
 
 	defer func() {
-		ctx.SetHeader(nil)
 		defaultHeaderPool.Put(header)
 	}()
 
@@ -70,8 +69,6 @@ func (p *protocolV1) UnpackBytes(ctx *protocol.Context, bs []byte) (packet *prot
 			return
 		}
 	}
-
-	ctx.EndUnpack()
 
 	return
 }
